@@ -382,31 +382,33 @@ def check_mut(M, cls, path, st, op, shared=None):
     return fail, expect, nst, info, (shared is not None and got == st)
 
 
-# attribute positions that may be simplified, per op kind: (position, base value, label)
+# attribute positions that may be simplified, per op kind: (position, base candidates or None, label)
 def _deltas(M, op):
     kind = op[0]
     out = []
     bt = M.BASE_TAG[op[1]]
     if bt != op[1]:
-        out.append((1, bt, "tag_" + M.TAGS[op[1]][2]))
+        out.append((1, (bt,), "tag_" + M.TAGS[op[1]][2]))
     if kind in ("set", "setitem") and op[2] != 0:
-        out.append((2, 0, "value_" + M.VALUES[op[2]][2]))
+        # two plain-string candidates: a refused set of the value already stored cannot show a change
+        out.append((2, (0, 4) if op[2] != 4 else (0, 2), "value_" + M.VALUES[op[2]][2]))
     if kind == "add_group":
         if op[2] < M.N_VALID_ITEMS:
             if op[4] != -1:
-                out.append((4, -1, f"idx_{op[4]}"))
+                out.append((4, (-1,), f"idx_{op[4]}"))
             if op[2] != 0:
-                out.append((2, 0, M.ITEMS[op[2]].label))
+                # two candidates: inserting an item equal to its neighbours cannot show a wrong position
+                out.append((2, (0, 1) if op[2] != 1 else (0, 2), M.ITEMS[op[2]].label))
             if op[3] != 0:
                 # form 1 with index -1 also means "index passed explicitly"
-                out.append((3, 0, "as_container"))
+                out.append((3, (0,), "as_container"))
         else:
             out.append((2, None, M.ITEMS[op[2]].label))
     if kind == "set_group":
         if op[2] >= M.N_VALID_LISTS:
             out.append((2, None, M.LISTS[op[2]][2]))
         elif op[2] != 1:
-            out.append((2, 1, M.LISTS[op[2]][2]))
+            out.append((2, (1,), M.LISTS[op[2]][2]))
     return out
 
 
@@ -414,14 +416,16 @@ def classify_mut(M, cls, path, st, op, fail):
     """Greedy simplification of the op parameters: the cause class names what is needed to fail."""
     cur, curfail = op, fail
     needed = []
-    for pos, base, label in _deltas(M, op):
-        if base is None:
+    for pos, bases, label in _deltas(M, op):
+        if bases is None:
             needed.append(label)
             continue
-        cand = cur[:pos] + (base,) + cur[pos + 1:]
-        f2 = check_mut(M, cls, path, st, cand)[0]
-        if f2 is not None:
-            cur, curfail = cand, f2
+        for base in bases:
+            cand = cur[:pos] + (base,) + cur[pos + 1:]
+            f2 = check_mut(M, cls, path, st, cand)[0]
+            if f2 is not None:
+                cur, curfail = cand, f2
+                break
         else:
             if label == "as_container" and cur[4] == -1:
                 label = "as_container_explicit_index"
@@ -912,9 +916,6 @@ def mut_violation(M, cls, path, st, op, fail, expect, info, acc):
     mop, mfail, delta = classify_mut(M, cls, path, st, op, fail)
     clause = MUT_CLAUSE[(op[0], expect)]
     tk = kind_of(st, M.TAGS[op[1]][1])
-    if op[0] == "add_group" and tk == "group":
-        n = len(dict(st)[M.TAGS[op[1]][1]])
-        tk = "group_len0" if n == 0 else ("group_len1" if n == 1 else "group_len2plus")
     sig = f"{clause}|{opname(op)}:{tk}:{delta}:{mfail}"
     x = acc.get(sig)
     if x is not None:
@@ -939,9 +940,9 @@ def mut_violation(M, cls, path, st, op, fail, expect, info, acc):
 def base_of(M, op):
     """The simplest variant of an op (int spelling, first value, first item as dict, default index)."""
     b = op
-    for pos, base, _label in _deltas(M, op):
-        if base is not None:
-            b = b[:pos] + (base,) + b[pos + 1:]
+    for pos, bases, _label in _deltas(M, op):
+        if bases is not None:
+            b = b[:pos] + (bases[0],) + b[pos + 1:]
     return b
 
 
